@@ -396,6 +396,29 @@ pub fn c19(ctx: &mut Ctx) {
             }
         });
     }
+    // ... and in compounds of mid-size third-party / unknown members whose total passes 65535 and 262144 bytes (a
+    // member that starts beyond 64 KiB / 256 KiB)
+    {
+        ctx.bound("large compounds", "compounds of k unknown / third-party members of 1400 and 4000 bytes for k just below and above the totals 65536 and 262144 bytes");
+        let shapes: Vec<(usize, usize)> = vec![(1400, 46), (1400, 47), (1400, 48), (1400, 187), (1400, 188), (1400, 190), (4000, 16), (4000, 17), (4000, 65), (4000, 66), (4000, 68)];
+        let ns = shapes.len() as u64;
+        ctx.run_space("embedded-in-large-compounds", ns, |idx, l| {
+            let (sz, n) = shapes[idx as usize];
+            let ms: Vec<Member> = (0..n)
+                .map(|i| {
+                    if i % 2 == 0 {
+                        Member::Plain(Pkt::Unknown { pt: 207, count: (i % 32) as u8, data: (0..sz - 4).map(|j| ((j * 3 + i) % 251) as u8 | 1).collect(), pad: 0 })
+                    } else {
+                        Member::Ext { pt: 242, min: 12, count: 3, ssrc: 0x0E0E_0000 + i as u32, words: (0..(sz - 8) / 4).map(|j| (j as u32).wrapping_mul(0x0101_0101) | 1).collect(), pad: 0 }
+                    }
+                })
+                .collect();
+            match guard::catch(|| c14_case(&ms, l)) {
+                Ok(()) => {}
+                Err(pi) => l.subject_panic("compound", &pi, || format!("{} members of {} bytes", ms.len(), sz)),
+            }
+        });
+    }
     ctx.require_hit("header helper ok");
     ctx.require_hit("header field readers ok");
     ctx.require_hit("padding helper ok");
